@@ -26,6 +26,14 @@ func replayMore(rp *ev.Replay) *ev.Failure {
 		if err := json.Unmarshal(rp.Case, &c); err != nil {
 			return ev.Failf("C12/replay", "bad case: %v", err)
 		}
+		if c.K >= 1000 { // schedules are sampled: repeat the concurrent round
+			for i := 0; i < 15; i++ {
+				if f := c12FirstUseRoundOnce(c.K); f != nil {
+					return f
+				}
+			}
+			return nil
+		}
 		return c12FirstUseRoundOnce(c.K)
 	case "C18/wktjson":
 		var c wktJSONCase
